@@ -98,7 +98,7 @@ func probeDecode(id RegID, input []byte, healthy *SimLedger, stats *Stats) (f *d
 		if alloc > uint64(allocBase+allocPerByte*len(input)) {
 			return &decodeFinding{"decode.alloc", fmt.Sprintf("%s allocated %d bytes for a %d-byte register (bound %d)", name, alloc, len(input), allocBase+allocPerByte*len(input))}
 		}
-		if d > 5*time.Second {
+		if d > 60*time.Second {
 			return &decodeFinding{"decode.slow", fmt.Sprintf("%s took %v for a %d-byte register", name, d, len(input))}
 		}
 		return nil
